@@ -96,6 +96,18 @@ func zeroDivisor(b interface{}) bool {
 	return false
 }
 
+func nonFiniteDecimal(v interface{}) bool {
+	d, ok := v.(primitive.Decimal128)
+	return ok && (d.IsNaN() || d.IsInf() != 0)
+}
+
+func nonFiniteNumber(v interface{}) bool {
+	if f, ok := v.(float64); ok {
+		return math.IsNaN(f) || math.IsInf(f, 0)
+	}
+	return nonFiniteDecimal(v)
+}
+
 func numKind(v interface{}) string {
 	switch v.(type) {
 	case int32:
@@ -116,6 +128,30 @@ func init() {
 		gen: func(r *rng) string {
 			op := pick(r, []string{"add", "add", "mul", "mul", "mod"})
 			var a, b interface{}
+			if op != "mod" && r.chance(1, 6) {
+				// a NaN / infinite operand next to a Decimal128: every special value of both
+				// types against every numeric type (zeros of all types, signs, other specials)
+				special := pick(r, []interface{}{mustDec("NaN"), mustDec("Infinity"), mustDec("-Infinity"),
+					math.NaN(), math.Inf(1), math.Inf(-1), primitive.NewDecimal128(0xFC00000000000000, 1), primitive.NewDecimal128(0x7E00000000000000, 0)})
+				var partner interface{}
+				switch r.intn(6) {
+				case 0:
+					partner = pick(r, []interface{}{int32(0), int32(5), int32(-5), int64(0), int64(7), int64(-7), int64(math.MinInt64)})
+				case 1:
+					partner = pick(r, []interface{}{0.0, math.Copysign(0, -1), 2.5, -2.5, math.NaN(), math.Inf(1), math.Inf(-1), 5e-324})
+				default:
+					partner = mustDec(pick(r, []string{"0", "-0", "0E+10", "-0.00", "1", "-1", "2.5", "-2.5", "NaN", "Infinity", "-Infinity", "1E+6111", "-1E-6176"}))
+				}
+				_, sd := special.(primitive.Decimal128)
+				_, pd := partner.(primitive.Decimal128)
+				if !sd && !pd {
+					partner = mustDec(pick(r, []string{"0", "-0", "3", "-3", "NaN", "Infinity", "-Infinity"}))
+				}
+				if r.chance(1, 2) {
+					special, partner = partner, special
+				}
+				return "(" + op + " " + enc(special) + " " + enc(partner) + ")"
+			}
 			for {
 				ka, kb := r.intn(4), r.intn(4)
 				if r.chance(1, 25) {
@@ -146,8 +182,11 @@ func init() {
 			default:
 				return "BAD-CASE"
 			}
-			if needsNewFromFloat(a, b) && !(c.list[0].atom == "mod" && zeroDivisor(b)) {
-				return "UNMODELLED" // (the zero-divisor guard of Mod answers Missing before any conversion)
+			if needsNewFromFloat(a, b) && !(c.list[0].atom == "mod" && zeroDivisor(b)) &&
+				!(c.list[0].atom != "mod" && (nonFiniteDecimal(a) || nonFiniteDecimal(b))) {
+				// (the zero-divisor guard of Mod answers Missing before any conversion; in Add / Mul a
+				// NaN / infinite Decimal128 partner decides the result before any conversion)
+				return "UNMODELLED"
 			}
 			return enc(res)
 		},
@@ -912,6 +951,9 @@ func mixedArith(d, u bson.D) bool {
 		}
 		if pairs, ok := e.Value.(bson.D); ok {
 			for _, p := range pairs {
+				if nonFiniteNumber(p.Value) {
+					continue // a NaN / infinite argument never reaches decimal.NewFromFloat
+				}
 				if isDecimal(p.Value) && dbl || isDouble(p.Value) && dcm {
 					return true
 				}
